@@ -18,7 +18,8 @@ CHECKS = {
  "C03": ("model_checking", "§2 C03",
    "Path-complete symbolic execution of the real generate_tokens / Tokenizer / XonshParser on symbolic characters (all strings over R up to length 2 quick / 3 "
    "thorough; seeds with one symbolic character; every prefix) and on symbolic token streams (all streams over the code-derived alphabet up to length 2 / 3). "
-   "The outcome class of each path is the verdict for its whole input class; bounded, not a proof.",
+   "The outcome class of each path is the verdict for its whole input class; bounded, not a proof. Plus z3 lemmas without length bound: every unbounded "
+   "repetition of every pattern the tokenizer compiles is unambiguous (no catastrophic backtracking), and a concrete scan of every nesting depth.",
    TRUST + "step/wall budgets as the non-termination detector", SYM),
  "C04": ("model_checking", "§2 C04",
    "On every accepting path of the symbolic explorations (Python and xonsh kinds) the tree is walked by a reference shape/context walker derived from CPython's "
@@ -118,7 +119,9 @@ def main():
                      "kind_free_text": "replay-DFS symbolic executor for Python over z3 (proxies for characters, token kinds, columns; symbolic regex matcher)"}],
         "checks": checks,
         "not_applicable": na,
-        "notes": "exit 0 held / 1 VIOLATION / 3 engine error or inconclusive (never reported as success)",
+        "notes": "exit 0 held / 1 VIOLATION / 3 engine error or inconclusive (never reported as success). Thorough tier: every exploration is capped at "
+                 "VERIF_THOROUGH_CAP seconds (default 300; 18 checks take about 6 h on 16 cores); a capped exploration is recorded as exhaustive:false. "
+                 "VERIF_REPO / VERIF_OUT point the checks at a scratch copy of the repository (tools_seeded.py --copy); unset, they examine /repo.",
     }
     json.dump(m, open(os.path.join(HERE, "MANIFEST.json"), "w"), indent=1)
 NA = {}
